@@ -586,6 +586,20 @@ def run(ctx):
                 check_oracle(ctx, t, form, r[1][len(hb):],
                              lambda x, v=v, close=close, pretty=pretty, n=len(hb): impl_serialize(x, v, close, pretty)[n:])
                 ctx.stat("oracle:forms")
+            elif is_domain and all(x for x in leaves_texts(t)):
+                # texts with edge blanks: they cannot come back as they are (element data is trimmed by every reader), but
+                # what is written must still be lexically valid — no raw '<' or '&' in element data
+                try:
+                    _, probs = reference_read(r[1][len(hb):].decode("utf-8"), close)
+                except UnicodeDecodeError:
+                    probs = []
+                raw = [p_ for p_ in probs if p_[0] in ("raw_lt", "raw_amp")]
+                ctx.stat("oracle:forms_untrimmed")
+                if raw:
+                    ctx.violate("unclosed_no_escape" if not close else "wire_raw_markup",
+                                {"op": "form", "tree": to_json(t), "form": list(form)},
+                                f"element data {raw[0][1]!r} (a text with an edge blank) is written with a raw "
+                                f"{'<' if raw[0][0] == 'raw_lt' else '&'}", {"form": form[0], "edge_blank": True})
             if is_domain and len(wl_lines) < 4000:
                 s = r[1][len(hb):].decode("utf-8")
                 wl_lines.append(line("spec.wirelex", chunks(s)))
